@@ -229,6 +229,16 @@ Proof.
     rewrite Z.mod_small by lia. destruct (Z.leb_spec 9223372036854775808 v); lia.
 Qed.
 
+(* with the sign and value REGENERATED from ffiobj_init (C11/Gen.v): an edit of the `neg` or `value`
+   computation in cdlopen.c changes gen_intconst_* and this proof no longer goes through *)
+Lemma decode_int_is_gen : forall lb o,
+  realize_global_int lb (gen_intconst_neg o) (gen_intconst_value o) = decode_int lb o.
+Proof. reflexivity. Qed.
+
+Lemma gen_int_constant_correct : forall v, - 2 ^ 63 <= v < 2 ^ 64 ->
+  realize_global_int 64 (gen_intconst_neg v) (gen_intconst_value v) = v.
+Proof. intros v Hv. rewrite decode_int_is_gen. apply decode_int_correct, Hv. Qed.
+
 Lemma decode_int_refuted_outside :
   (exists v, 2 ^ 64 <= v /\ decode_int 64 v <> v) /\ (exists v, v < - 2 ^ 63 /\ decode_int 64 v <> v).
 Proof.
